@@ -160,7 +160,12 @@ def plan(tier, master_seed):
 def scenario_for(task, package_dir=None):
     variant = VARIANTS[task["variant"]]
     scn = {"base": variant["base"], "set": json.loads(json.dumps(variant.get("set", {}))), "seed": task["seed"],
-           "end_time": float(variant["time"][task["tier"]]), "max_events": 10 ** 9}
+           "end_time": float(variant["time"][task["tier"]]), "max_events": 10 ** 9,
+           # point charges without a repulsive core (the hydrogens of the water model) can fall onto an unlike charge
+           # of another molecule placed next to them by the random input handler: the event rate diverges and the run
+           # would never end; such a run is stopped and left out (the tabulated references do not contain the
+           # collapsed state either)
+           "storm_guard": [20000, 0.01]}
     if variant.get("roots") and package_dir is not None:
         from .. import gen
         sections = scenario_module.base_sections(package_dir, variant["base"])
@@ -202,6 +207,8 @@ def execute(task, package_dir):
             summary["violations"].append(common.crash_violation(ID, result))
             return summary
         if result.status != "ok":
+            if (result.notes or {}).get("event_storm_at") is not None:
+                summary["probes"] = {"runs_stopped_in_an_event_storm": 1}
             return summary
         sections = scenario_module.resolve(scn, package_dir)
         observables = {}
